@@ -40,6 +40,11 @@ func (t *Taktician) GetMove(
 	ctx context.Context,
 	p *tak.Position,
 	mine, theirs time.Duration) tak.Move {
+	if ctx.Err() != nil {
+		// Our handleMove invocation is over; after GameOver
+		// t.g and t.ai are gone.
+		return tak.Move{}
+	}
 	if p.ToMove() == t.g.Color {
 		var cancel context.CancelFunc
 		timeout := t.timeBound(mine)
